@@ -447,6 +447,13 @@ Theorem documented_sentences :
   says doc_text_constraint_argmax_depth "IFM depth must be no greater than ".
 Proof. unfold says. repeat (match goal with |- _ /\ _ => split end); vm_compute; reflexivity. Qed.
 
+(* three of them, for the property file *)
+Theorem documented_sentences_3 :
+  says doc_text_constraint_stride_range "Stride values for both width and height must be in the range [, ]" /\
+  says doc_text_constraint_bias_40bit "Optional Bias tensor values must fit within -bits" /\
+  says doc_text_constraint_mean_width "If Width axis is reduced its shape must be no greater than .".
+Proof. unfold says. split; [|split]; vm_compute; reflexivity. Qed.
+
 (* ------------------------------------------------------------------------------------------------------------ *)
 (* the drivers and the report                                                                                    *)
 Lemma run_constraints_fst : forall res l, fst (run_constraints res l) = forallb res l.
